@@ -18,6 +18,7 @@ from contracts.functions_ops import (OPCK, OPC_WEAK, vm_ok, clean, sigfields_ok,
                                      no_plugins_at_all, ks_same_but_returned, opc_post, flags_complete, defs_ok)
 from contracts.functions_ops2 import plugins_ok, SIG_EXT, spec_check_sig, spec_verify
 from time import time
+import os
 
 ALL = ('tape.pointer', 'tape.callstack_count', 'tape.definitions', 'tape.flags', 'stack.deque', 'cache')
 
@@ -505,6 +506,9 @@ class run_script_c:
                                and result[0].callstack_limit == old.callstack_limit)),
             ('stack_ok', implies(raised is None, lambda: run_script_stack_ok(result[1]))),
             ('cache_ok', implies(raised is None, lambda: run_script_cache_ok(result[2]))),
+            ('defs_ok', implies(raised is None, lambda: all_values_refs(result[0].definitions))),
+            ('plugins_ok', implies(raised is None, lambda: is_list_or_absent(result[0].plugins, 'signature_extensions')
+                                   and is_list_or_absent(result[0].plugins, 'check_template'))),
             ('registry.contracts', implies(raised is None,
                                            lambda: dict_same(result[0].contracts, {**G_contracts, **contracts}))),
             ('registry.plugins', implies(raised is None,
@@ -548,7 +552,9 @@ class run_auth_scripts_c:
               'stack_max_items': 'int', 'stack_max_item_size': 'int', 'callstack_limit': 'int'}
     globals = {'_contracts': 'dict', '_plugins': 'dict'}
     modifies = ()
-    cases = [(f'{n}-scripts', scripts_case(n)) for n in (1, 2, 3, 4)]
+    # quick: lists of 1..3 scripts; thorough: 1..4 (the property's bound)
+    cases = [(f'{n}-scripts', scripts_case(n))
+             for n in ((1, 2, 3, 4) if os.environ.get('VERIF_TIER_EFFECTIVE') == 'thorough' else (1, 2, 3))]
 
     def requires(scripts, cache_vals, contracts, plugins, stack_max_items, stack_max_item_size, callstack_limit,
                  G_plugins):
